@@ -50,7 +50,7 @@ theorem readFieldBegin_hdr (s : CR) (ct : Nat) (t : TType) (hct : 1 ≤ ct ∧ c
 theorem readFieldBegin_stop (s : CR) (r : Bytes) : readFieldBegin s ((0 : UInt8) :: r) = .ok ((.stop, 0), s, r) := by
   simp [readFieldBegin, readByte, Binary.readByte, ttypeOfCompact]
 
-theorem readCollBegin_hdr (t : TType) (ht : t.isValue = true) (n : Nat) (hn : n < 2 ^ 31) (r : Bytes) :
+theorem readCollBegin_hdr (t : TType) (ht : t.isValue = true) (n : Nat) (hn : n < 2 ^ 31) (r : Bytes) (hr : n ≤ r.length) :
     readCollBegin (collHeader ((compactOf t).getD 0) n ++ r) = .ok ((t, n), r) := by
   obtain ⟨ct, h1, h2, h3, h4, _⟩ := compactOf_value t ht
   simp only [h1, Option.getD_some]
@@ -62,7 +62,7 @@ theorem readCollBegin_hdr (t : TType) (ht : t.isValue = true) (n : Nat) (hn : n 
     have e1 : (n * 16 + ct) / 16 = n := by omega
     have e2 : (n * 16 + ct) % 16 = ct := by omega
     have e3 : n ≠ 15 := by omega
-    simp [e1, e2, h4, e3]
+    simp [e1, e2, h4, e3, Binary.checkSize_ok n r hr]
   · simp only [hs, if_false, List.cons_append]
     unfold readCollBegin
     rw [readByte_cons (0xF0 + ct) (by omega)]
@@ -70,12 +70,10 @@ theorem readCollBegin_hdr (t : TType) (ht : t.isValue = true) (n : Nat) (hn : n 
     have e2 : (0xF0 + ct) % 16 = ct := by omega
     have e31 : (2:Nat)^31 = 2147483648 := by decide
     have e32 : (2:Nat)^32 = 4294967296 := by decide
-    rw [e31] at hn
-    have hm : n % 2 ^ 32 = n := by rw [e32]; omega
+    have hm : n % 2 ^ 32 = n := by rw [e32]; rw [e31] at hn; omega
     simp only [e1, e2, h4, hm]
-    simp only [readSize, readVarU4_encVar n (by rw [e32]; omega)]
-    have := Binary.asUsize_toS4 n (by rw [e31]; exact hn)
-    simp [this]
+    simp only [readVarU4_encVar n (by rw [e32]; rw [e31] at hn; omega), Binary.toS4_eq n hn, Binary.checkSize_ok n r hr]
+    simp
 
 end Pilota.Thrift.Compact
 
@@ -83,7 +81,7 @@ namespace Pilota.Thrift.Compact
 open Pilota Pilota.Thrift
 
 theorem readMapBegin_hdr (kt vt : TType) (hk : kt.isValue = true) (hv : vt.isValue = true) (n : Nat) (hn0 : n ≠ 0)
-    (hn : n < 2 ^ 31) (r : Bytes) :
+    (hn : n < 2 ^ 31) (r : Bytes) (hr : n ≤ r.length) :
     readMapBegin (encVar (n % 2 ^ 32) ++ (UInt8.ofNat ((compactOf kt).getD 0 * 16 + (compactOf vt).getD 0) :: r))
       = .ok ((kt, vt, n), r) := by
   obtain ⟨ck, k1, k2, k3, k4, _⟩ := compactOf_value kt hk
@@ -94,24 +92,20 @@ theorem readMapBegin_hdr (kt vt : TType) (hk : kt.isValue = true) (hv : vt.isVal
   simp only [k1, v1, Option.getD_some, hm]
   unfold readMapBegin
   rw [readVarU4_encVar n (by rw [e32]; rw [e31] at hn; omega)]
-  have hs : toS 4 n ≠ 0 := by
-    intro h
-    have := Binary.asUsize_toS4 n hn
-    rw [h] at this
-    simp [Binary.asUsize, toU] at this
-    omega
-  simp only [hs, if_false]
+  simp only [Binary.toS4_eq n hn]
+  have hr' : n ≤ (UInt8.ofNat (ck * 16 + cv) :: r).length := by simp; omega
+  simp only [Binary.checkSize_ok n _ hr', hn0, if_false]
   rw [readByte_cons (ck * 16 + cv) (by omega)]
   have e1 : (ck * 16 + cv) / 16 = ck := by omega
   have e2 : (ck * 16 + cv) % 16 = cv := by omega
-  simp [e1, e2, k4, v4, Binary.asUsize_toS4 n hn]
+  simp [e1, e2, k4, v4]
 
 theorem readMapBegin_empty (r : Bytes) : readMapBegin ((0 : UInt8) :: r) = .ok ((.stop, .stop, 0), r) := by
   have : readVarU 4 ((0 : UInt8) :: r) = .ok (0, r) := by
     have := readVarU4_encVar 0 (by decide) r
     rw [encVar] at this
     simpa using this
-  simp [readMapBegin, this, toS]
+  simp [readMapBegin, this, toS, Binary.checkSize]
 
 /-- the id the reader's `last` holds after the fields of a struct. -/
 def lastOf (last : Int) : TFields → Int
@@ -160,13 +154,13 @@ theorem readVal_enc (v : TVal) (hw : v.wt = true) (f : Nat) (hf : v.size ≤ f) 
       simp [TVal.wt] at hw; simp [TVal.size] at hf
       obtain ⟨⟨he, hl⟩, hx⟩ := hw
       simp only [enc, TVal.ttype, readVal, List.append_assoc, norm]
-      rw [readCollBegin_hdr et he _ hl]
+      rw [readCollBegin_hdr et he _ hl _ (by have := vals_length_le xs et hx; simp only [List.length_append]; omega)]
       simp [readN_enc et xs hx f hf s hs r]
     | set et xs =>
       simp [TVal.wt] at hw; simp [TVal.size] at hf
       obtain ⟨⟨he, hl⟩, hx⟩ := hw
       simp only [enc, TVal.ttype, readVal, List.append_assoc, norm]
-      rw [readCollBegin_hdr et he _ hl]
+      rw [readCollBegin_hdr et he _ hl _ (by have := vals_length_le xs et hx; simp only [List.length_append]; omega)]
       simp [readN_enc et xs hx f hf s hs r]
     | map kt vt kvs =>
       simp [TVal.wt] at hw; simp [TVal.size] at hf
@@ -179,7 +173,7 @@ theorem readVal_enc (v : TVal) (hw : v.wt = true) (f : Nat) (hf : v.size ≤ f) 
       | cons k0 v0 rest =>
         have hne : (TPairs.cons k0 v0 rest).length ≠ 0 := by simp [TPairs.length]
         simp only [enc, TVal.ttype, readVal, hne, if_false, List.append_assoc, List.cons_append, norm]
-        rw [readMapBegin_hdr kt vt hk hv _ hne hl]
+        rw [readMapBegin_hdr kt vt hk hv _ hne hl _ (by have := pairs_length_le (TPairs.cons k0 v0 rest) kt vt hx; simp only [List.length_append]; omega)]
         simp [readPairs_enc kt vt _ hx f hf s hs r]
 theorem readFields_enc (fs : TFields) (hw : fs.wt = true) (f : Nat) (hf : fs.size ≤ f) (s : CR) (hs : s.pendingBool = none) (r : Bytes) :
     readFields f s (encFields s.last fs ++ r) = .ok (normFields fs, { s with last := lastOf s.last fs }, r) := by
